@@ -592,7 +592,12 @@ def expand_macros(text, macros, hits, depth=0, context=None):
             k = e
             while k < len(text) and text[k] in ' \t':
                 k += 1
-            if k < len(text) and text[k] == ';':
+            # statement position (preceded by `{`, `}`, `;` or nothing): the trailing `;` belongs to the invocation
+            pb = s - 1
+            while pb >= 0 and text[pb].isspace():
+                pb -= 1
+            stmt_pos = pb < 0 or text[pb] in '{};'
+            if stmt_pos and k < len(text) and text[k] == ';':
                 e = k + 1
             if getattr(md, 'fn_params', None):
                 call_args = []
